@@ -75,4 +75,7 @@ theorem gen_snapRefused (r : List Nat) :
   · have h' : ¬ (r.length : Int) > 65535 := by omega
     simp [h, h']
 
+/-- no statement of the Go text of this run ends a message-listener loop on an error -/
+theorem gen_listener_never_exits : Gen.listenerExitsOnError = 0 := by decide
+
 end Orbit
